@@ -2,6 +2,7 @@ package main
 
 import (
 	"fmt"
+	"go/constant"
 	"go/token"
 	"go/types"
 	"strings"
@@ -23,6 +24,12 @@ func init() {
 	}, runC18)
 
 	addVariants(
+		Variant{ID: "c18-r8-binary-search-strict-end", Prop: "C18", File: "replication/mysql56_gtid_set.go",
+			Old: "\tfor _, iv := range set[gtid56.Server] {\n\t\tif iv.start > gtid56.Sequence {", New: "\tif ivs := set[gtid56.Server]; len(ivs) > 8 {\n\t\ti := sort.Search(len(ivs), func(i int) bool { return ivs[i].end > gtid56.Sequence })\n\t\treturn i < len(ivs) && ivs[i].start <= gtid56.Sequence\n\t}\n\tfor _, iv := range set[gtid56.Server] {\n\t\tif iv.start > gtid56.Sequence {",
+			Expect: "C18-R8 closed@"},
+		Variant{ID: "c18-r8-start-not-strict", Prop: "C18", File: "replication/mysql56_gtid_set.go",
+			Old: "\t\tif iv.start > gtid56.Sequence {", New: "\t\tif iv.start >= gtid56.Sequence {",
+			Expect: "C18-R8 closed@"},
 		Variant{ID: "c18-r6-interval-count-shortcut", Prop: "C18", File: "replication/mysql56_gtid_set.go",
 			Old: "\t\tcount := len(intervals)\n\n\t\t// Check each interval for this SID in the other set.\n", New: "\t\tcount := len(intervals)\n\t\tif len(otherIntervals) > count {\n\t\t\treturn false\n\t\t}\n\n\t\t// Check each interval for this SID in the other set.\n",
 			Expect: "C18-R6 count-shortcut@Contains"},
@@ -80,6 +87,7 @@ func runC18(a *A) {
 	c18R4(a)
 	c18R5(a)
 	c18R6(a)
+	c18R8(a)
 	statelessRule(a, "C18-R7", "the Mysql56GTIDSet operations", append(methodsOf(a.W, a.W.Repl, "Mysql56GTIDSet"), a.W.fn(a.W.Repl, "parseMysql56GTIDSet")), a.W.Repl)
 }
 
@@ -657,4 +665,145 @@ func sortedBefore(v ssa.Value, at ssa.Instruction, depth int) bool {
 		}
 	}
 	return n > 0
+}
+
+// R8: closed-interval comparisons. An interval {start,end} denotes the members start..end, both included, and the set
+// model cannot tell two members of one interval apart. An inequality between a bound of an interval and a sequence
+// number (any non-constant integer that is not itself a bound) is normalised to  bound - x >= t  (or its negation);
+// it separates the values x <= bound-t from the values x > bound-t. For an `end` bound the members are the x with
+// end-x >= 0, so t must be <= 0 (t=0: inside/beyond, t=-1: touching, ...); t >= 1 puts the last member(s) on the side of
+// the values beyond the interval. For a `start` bound the members have start-x <= 0, so t must be >= 1. A comparison
+// on the wrong side (end > seq, start >= seq, seq < end, ...) treats the boundary member as a non-member: membership,
+// and through AddGTID's already-present test the canonical form, are wrong for exactly those GTIDs. Equalities and
+// comparisons between two bounds are not instances (their meaning depends on the context).
+func c18R8(a *A) {
+	const rule = "C18-R8"
+	w := a.W
+	boundOf := func(v ssa.Value) (string, bool) {
+		v = stripW(v)
+		var st types.Type
+		idx := -1
+		switch x := v.(type) {
+		case *ssa.Field:
+			st, idx = x.X.Type(), x.Field
+		case *ssa.UnOp:
+			if x.Op != token.MUL {
+				return "", false
+			}
+			fa, ok := x.X.(*ssa.FieldAddr)
+			if !ok {
+				return "", false
+			}
+			p, ok := fa.X.Type().Underlying().(*types.Pointer)
+			if !ok {
+				return "", false
+			}
+			st, idx = p.Elem(), fa.Field
+		default:
+			return "", false
+		}
+		if !typeIs(st, replPath, "interval") {
+			return "", false
+		}
+		s, ok := st.Underlying().(*types.Struct)
+		if !ok || idx < 0 || idx >= s.NumFields() {
+			return "", false
+		}
+		n := s.Field(idx).Name()
+		if n != "start" && n != "end" {
+			return "", false
+		}
+		return n, true
+	}
+	// v = base + c
+	var linear func(v ssa.Value, d int) (ssa.Value, int64, bool)
+	linear = func(v ssa.Value, d int) (ssa.Value, int64, bool) {
+		v = stripW(v)
+		if bo, ok := v.(*ssa.BinOp); ok && d < 4 && (bo.Op == token.ADD || bo.Op == token.SUB) {
+			if c, ok := stripW(bo.Y).(*ssa.Const); ok && c.Value != nil {
+				if k, ok := constInt64(c); ok {
+					b, c0, ok := linear(bo.X, d+1)
+					if bo.Op == token.SUB {
+						k = -k
+					}
+					return b, c0 + k, ok
+				}
+			}
+			if c, ok := stripW(bo.X).(*ssa.Const); ok && c.Value != nil && bo.Op == token.ADD {
+				if k, ok := constInt64(c); ok {
+					b, c0, ok := linear(bo.Y, d+1)
+					return b, c0 + k, ok
+				}
+			}
+		}
+		if _, isC := v.(*ssa.Const); isC {
+			return nil, 0, false
+		}
+		return v, 0, true
+	}
+	n, bad := 0, 0
+	perFn := map[string]int{}
+	for _, f := range w.srcFuncs(w.Repl) {
+		instrs(f, func(in ssa.Instruction) {
+			bo, ok := in.(*ssa.BinOp)
+			if !ok {
+				return
+			}
+			op := bo.Op
+			switch op {
+			case token.LSS, token.LEQ, token.GTR, token.GEQ:
+			default:
+				return
+			}
+			lb, lc, lok := linear(bo.X, 0)
+			rb, rc, rok := linear(bo.Y, 0)
+			if !lok || !rok {
+				return
+			}
+			lk, lIs := boundOf(lb)
+			rk, rIs := boundOf(rb)
+			if lIs == rIs {
+				return // two bounds, or none
+			}
+			kind, k := lk, rc-lc // bound + lc OP x + rc  <=>  bound - x OP rc-lc
+			if rIs {
+				kind, k = rk, lc-rc
+				switch op { // x + lc OP bound + rc  <=>  bound - x OP' lc-rc
+				case token.LSS:
+					op = token.GTR
+				case token.LEQ:
+					op = token.GEQ
+				case token.GTR:
+					op = token.LSS
+				case token.GEQ:
+					op = token.LEQ
+				}
+			}
+			t := k
+			if op == token.GTR || op == token.LEQ {
+				t = k + 1
+			}
+			n++
+			perFn[f.String()+kind]++
+			a.touch(f)
+			key := fmt.Sprintf("closed@%s[%s#%d]", fnName(f), kind, perFn[f.String()+kind])
+			good := kind == "end" && t <= 0 || kind == "start" && t >= 1
+			if good {
+				a.hold(rule, key, w.posOf(bo), "comparison is (the negation of) %s - x >= %d: it does not separate members of the interval", kind, t)
+			} else {
+				bad++
+				a.viol(rule, key, w.posOf(bo), "comparison is (the negation of) %s - x >= %d: intervals are closed (start and end are members), so it separates members of the interval from each other and puts a boundary member on the side of the non-members - membership (and AddGTID's already-present test, hence canonical form) is wrong for GTIDs on an interval boundary", kind, t)
+			}
+		})
+	}
+	if n == 0 {
+		a.info(rule, "closed@none", "-", "no inequality between an interval bound and a sequence number in the package (nothing to decide)")
+	}
+}
+
+func constInt64(c *ssa.Const) (int64, bool) {
+	if c.Value == nil || c.Value.Kind() != constant.Int {
+		return 0, false
+	}
+	return constant.Int64Val(c.Value)
 }
